@@ -55,7 +55,8 @@ CHECKS = {
             "from Python integers; all (a,b,m) at BITS<=4."),
     "C11": ("spec/UintMath.tla CheckRedc, spec/Kernels.tla CheckKRedc", "mul_redc/square_redc (array kernels N=1..16 and Uint "
             "methods) validated by TLC against r < m and r*2^(64N) = a*b + k*m (signed witness k); the specification re-checks "
-            "the preconditions (m odd >= 3, a,b < m, inv*m0 = -1 mod 2^64); moduli at the 2^62 / 2^63 carry thresholds."),
+            "the preconditions (m odd >= 3, a,b < m, inv*m0 = -1 mod 2^64); moduli at the 2^62 / 2^63 carry thresholds and at the edge of the narrow squaring path (top limb ceil(2^64/3) + d with the "
+            "reduction factor forced to 2^64-1), the edge itself model-checked at small limb widths (algo/Redc *_edge_* / *_pastedge_*)."),
     "C12": ("spec/UintMath.tla CheckGcd, spec/Kernels.tla CheckLehmer*", "gcd, lcm, gcd_extended validated by TLC with Bezout "
             "witnesses (g*a1 = a, g*b1 = b, |u*a1 - v*b1| = 1); Lehmer matrices (from, from_u64, prefix forms checked on several "
             "extensions of the prefix, apply, apply_u128, compose) validated against 'identity, or unimodular with c >= d >= 0, "
@@ -74,9 +75,9 @@ CHECKS = {
     "C18": ("spec/UintFloat.tla", "try_from/from/wrapping_from/saturating_from for f64 and f32 bit patterns validated by TLC against "
             "exact floor(f + 1/2) from the decoded IEEE-754 fields, NaN / negative / too-large classification; f64::from / f32::from "
             "on ascending runs of values validated against 'one of the two representable neighbours, exact if representable, "
-            "+inf only beyond the rounding range, monotone'."),
+            "+inf only beyond the rounding range, monotone' (also at 65700 and 70000 bits, beyond the compiled width list)."),
     "C14": ("spec/Kernels.tla CheckKDiv*", "algorithms::div on every combination of slice lengths 1..12 and zero padding, the "
-            "specialised kernels inside their preconditions, reciprocal/reciprocal_2 on every table row, validated by TLC "
+            "specialised kernels inside their preconditions, reciprocal/reciprocal_2 on every table row plus divisors computed from the published algorithm (table-perturbation search, rounding jumps of the first Newton step), validated by TLC "
             "against the Euclidean relation / the reciprocal's defining inequalities (multiplication and comparison only)."),
     "C15": ("spec/Kernels.tla CheckKAddMul/CheckKNx1/CheckKWord/CheckKShift", "addmul (flag exact), addmul_n, the nx1 family, adc_n, "
             "sbb_n, single-word primitives, small shifts and cmp validated by TLC against balance equations "
